@@ -7,7 +7,9 @@ set -u
 cd "$(dirname "$0")"
 export CARGO_NET_OFFLINE=true
 export VERIF_SEED="${VERIF_SEED:-1}"
-H=/verif/harness
+ROOT="${VERIF_ROOT:-/verif}"   # a snapshot under vp run sets VERIF_ROOT (and rewrites the path dependency)
+export VERIF_ROOT="$ROOT"
+H=$ROOT/harness
 
 build() {
   # the library is a path dependency: any edit under /repo/poly-commit is recompiled here
@@ -53,17 +55,17 @@ case "${1:-}" in
         echo "INCONCLUSIVE: fuzz target build failed (see $H/fuzz-build.log); proptest units of C03 passed"
         exit 2
       fi
-      run=/verif/fuzz/corpus-run
-      rm -rf "$run" && mkdir -p "$run" && cp /verif/fuzz/corpus/proofshape/* "$run"/
+      run=$ROOT/fuzz/corpus-run
+      rm -rf "$run" && mkdir -p "$run" && cp $ROOT/fuzz/corpus/proofshape/* "$run"/
       runs="${VERIF_FUZZ_RUNS:-3000}"
-      ( cd /verif/fuzz && ./target/x86_64-unknown-linux-gnu/release/proofshape "$run" -seed="$VERIF_SEED" -runs="$runs" -jobs=8 -workers=8 -len_control=0 -max_len=512 -artifact_prefix=/verif/fuzz/artifacts/ > "$H/fuzz-run.log" 2>&1 )
+      ( cd $ROOT/fuzz && ./target/x86_64-unknown-linux-gnu/release/proofshape "$run" -seed="$VERIF_SEED" -runs="$runs" -jobs=8 -workers=8 -len_control=0 -max_len=512 -artifact_prefix=$ROOT/fuzz/artifacts/ > "$H/fuzz-run.log" 2>&1 )
       frc=$?
-      cat /verif/fuzz/fuzz-*.log >> "$H/fuzz-run.log" 2>/dev/null; rm -f /verif/fuzz/fuzz-*.log
+      cat $ROOT/fuzz/fuzz-*.log >> "$H/fuzz-run.log" 2>/dev/null; rm -f $ROOT/fuzz/fuzz-*.log
       viol=$(grep -h "^VIOLATION property=C03" "$H/fuzz-run.log" | sort -u)
       execs=$(grep -ho "Done [0-9]* runs" "$H/fuzz-run.log" | awk '{s+=$2} END {print s+0}')
       python3 - "$execs" "$(ls "$run" | wc -l)" "$(echo "$viol" | grep -c VIOLATION)" <<'PY'
-import json,sys
-p='/verif/evidence/C03.json'
+import json,sys,os
+p=os.environ.get('VERIF_ROOT','/verif')+'/evidence/C03.json'
 e=json.load(open(p))
 e['coverage']['libfuzzer']={'target':'proofshape','executions':int(sys.argv[1]),'corpus_files_after_run':int(sys.argv[2]),'violations':int(sys.argv[3]),
   'note':'coverage-guided exploration of the same C03 oracle; campaigns are only approximately reproducible, saved inputs are the reproducible unit'}
